@@ -3,6 +3,7 @@ import importlib
 import os
 import pkgutil
 import sys
+import collections
 import time
 import traceback
 
@@ -139,6 +140,27 @@ def check_functions(repo, quals, thorough=False, all_backends=False, log=None, o
       index[key] = (ob, pi, q)
       jobs.append((key, text, thorough, all_backends, ob.kind == 'canary'))
   t0 = time.time()
-  results = solve.discharge_all(jobs)
+  # must-not-be-provable checks (canaries, vacuity) succeed as soon as ONE instance of a name is
+  # not provable: four instances per name are tried first, the others only if all four came out
+  # `unsat` (a function with hundreds of return paths otherwise spends minutes on them)
+  first, later, per_name = [], [], collections.Counter()
+  for j in jobs:
+    if j[4]:
+      nm = index[j[0]][0].name
+      per_name[nm] += 1
+      (first if per_name[nm] <= 4 else later).append(j)
+    else:
+      first.append(j)
+  results = solve.discharge_all(first)
+  open_names = set()
+  for j in first:
+    if j[4] and results[j[0]]['verdict'] != 'unsat':
+      open_names.add(index[j[0]][0].name)
+  rest = [j for j in later if index[j[0]][0].name not in open_names]
+  if rest:
+    results.update(solve.discharge_all(rest))
+  for j in later:
+    if j[0] not in results:
+      del index[j[0]]          # not needed for the verdict; not counted
   wall = time.time() - t0
   return fres, index, results, wall
